@@ -58,7 +58,11 @@ CHECKS = {
             'Inputs of 2..99 sequences with duplicated members are aligned by the real binary (ASan+UBSan); whenever the independent containment premise holds, all copies must come back as identical gapped rows. Cases failing the premise are counted and skipped.',
             '13-class reduction as published; premise computed on upper-cased sequences; lengths < 5000.',
             "4/C12"),
-    "C13": (False, "", "", "", "4/C13"),
+    "C13": (True,
+            'runtime oracle on msa->biotype after kalign_read_input / kalign_arr_to_msa, CLI acceptance of --type dna/protein and the MSF label, for generated compositions satisfying one premise, in plain / gapped / padded / permuted / renamed presentations (ASan+UBSan build)',
+            'Compositions are drawn to satisfy premise 1 (only A,C,G,T,U,N) or premise 2 (>= 25% protein-only letters, remainder from common letters, U and B/J/O/X/Z in all proportions, also placed at the 25% boundary); the kind kalign reports must be nucleotide resp. protein for every presentation and must not change under permutation or renaming. One recorded finding (U-heavy premise-2 inputs) is listed in known_findings.txt.',
+            'The 15 protein-only letters are DEFHIKLMPQRSVWY; sampled compositions, not all.',
+            "4/C13"),
     "C14": (True,
             'metamorphic runtime monitor: re-spelled inputs (case flips, T<->U) through kalign_read_input+kalign_run (ASan+UBSan), gap patterns compared',
             'Every generated nucleotide/protein input and a random re-spelling of it are aligned by the real library with the same type and thread count; gap patterns must be identical and letters must be those of the re-spelled input. Pairs for which kalign detects different kinds are skipped and counted.',
@@ -70,7 +74,11 @@ CHECKS = {
             'MSF/Clustal grammar as stated in the property (GCG checksum formula, blocks of at most 60 columns); kind taken from msa->biotype.',
             "4/C15"),
     "C16": (False, "", "", "", "4/C16"),
-    "C17": (False, "", "", "", "4/C17"),
+    "C17": (True,
+            'differential monitor: kalign_msa_compare on real msa objects (two runs in one process, files in three formats) vs an independent implementation of the score definition (ref/reftool.c), plus metamorphic checks (range, identity = 100, row-order invariance), ASan+UBSan build',
+            'For every generated pair of alignments of the same uniquely named sequences the returned score must equal the independently computed one within 1e-3, lie in [0,100], be 100 for the same alignment with rows permuted and all-gap columns inserted, and not change when the rows of either argument are permuted. The run fails as inconclusive unless the observed scores span at least four deciles.',
+            'Unique names; every file argument contains at least one gap character; float32 tolerance 1e-3.',
+            "4/C17"),
 }
 
 
